@@ -376,3 +376,124 @@ Proof.
   intros s W. unfold pulled. constructor; unfold flag01; gs_fast; try apply W.
   unfold add16. apply Z.mod_pos_bound. lia.
 Qed.
+
+(* ---------------------------------------------------------------- tactics of the stack family *)
+Ltac spec_evalS :=
+  lazy beta iota zeta delta [exec oploc set_nz with_A with_X with_Y with_S with_D with_DBR with_PBR with_PC
+         with_N with_V with_M with_Xf with_Df with_I with_Z with_C with_E with_Stp xr yr xw mw acc with_acc abs Spec816.b2z
+         rA rX rY rS rD rDBR rPBR rPC fN fV fM fX fD fI fZ fC rE rStp fst snd wmod wsgn ISA.length negb
+         rdw rd8 rd16 loc_byte byte ba w16
+         Spec816.push8 Spec816.push16 pushw Spec816.pull8 Spec816.pull16 pullw app apply_writes
+         Spec816.step_state Spec816.step_mem].
+
+Lemma ite_cong : forall (a x y v w r r' : Z), x = y -> v = w -> r = r' ->
+  (if a =? x then v else r) = (if a =? y then w else r').
+Proof. intros; subst; reflexivity. Qed.
+
+Ltac nonneg := first [ lia | (apply Z.mod_pos_bound; lia) | (unfold add16, sub16, conv16; apply Z.mod_pos_bound; lia) ].
+
+Ltac zarithS :=
+  rewrite ?shr8;
+  repeat match goal with
+         | |- context [w_or (shl16 ?h 8) ?l] => rewrite (join16 h l) by first [ assumption | (apply Z.mod_pos_bound; lia) | lia ]
+         | |- context [w_and ?x 255] => rewrite (land255 x) by nonneg
+         end;
+  unfold add8, sub8, conv8, add16, sub16, conv16, w16, w8, wtrunc;
+  rewrite ?Z.add_0_r; rewrite ?Zmod_mod;
+  Z.div_mod_to_equations; lia.
+
+Ltac mem_chain := repeat (apply ite_cong; [ first [reflexivity | zarithS] | first [reflexivity | zarithS] | ]); reflexivity.
+
+Ltac push_side s s1 Hs1 HE :=
+  first [ (rewrite (same_get s s1 f_E Hs1 eq_refl); exact HE)
+        | (rewrite (same_get s s1 f_SP Hs1 eq_refl); assumption) ].
+
+Ltac push_fin s W Hop s1 Hs1 Hsz mn md :=
+  apply refines_finish; unfold advance, pushed;
+  [ unfold abs at 1; gs_fast; try rewrite Hsz; to_initial s s1 Hs1;
+    spec_side s W Hop mn md; spec_evalS; rw_hyps; lits; spec_evalS; rewrite ?ite_eqb1;
+    try reflexivity; f_equal; field_goal
+  | intro a; gs_fast; gs_normw; to_initial s s1 Hs1; spec_side s W Hop mn md; spec_evalS; rw_hyps; lits; spec_evalS;
+    mem_chain
+  | constructor; unfold flag01; gs_fast; try rewrite Hsz; to_initial s s1 Hs1; rw_hyps;
+    first [ apply W | rng8 | rng16 | (left; reflexivity) | (right; reflexivity) ] ].
+
+Ltac push_op op routine mn :=
+  start_imp op; cbv beta zeta delta [routine b2z];
+  match goal with W : wf ?s, HE : get f_E ?s = 0, Hop : opcode_at ?s = _, Hs1 : same ?s ?s1, Hsz : get f_stepPC ?s1 = _ |- _ =>
+    by_flags s W s1 Hs1 HE; pose_ranges s W;
+    first [ rewrite push16_ok by push_side s s1 Hs1 HE | rewrite push_ok by push_side s s1 Hs1 HE ];
+    rewrite bind_Ok; cbv beta;
+    push_fin s W Hop s1 Hs1 Hsz mn Imp
+  end.
+
+Ltac start_m5 op :=
+  let s := fresh "s" in let W := fresh "W" in let HE := fresh "HE" in let Hni := fresh "Hni" in let Hop := fresh "Hop" in
+  intros s W HE Hni Hop;
+  apply (Step_m5 s op); [ exact Hni | apply W | apply W | exact Hop | reflexivity | ];
+  let s1 := fresh "s1" in let Hs1 := fresh "Hs1" in let Hsz := fresh "Hsz" in let Hmd := fresh "Hmd" in
+  let Haddr := fresh "Haddr" in let Hea := fresh "Hea" in
+  intros s1 Hs1 Hsz Hmd Haddr Hea;
+  let p := eval cbv beta iota delta [tbl_proc] in (tbl_proc op) in change (tbl_proc op) with p;
+  let z := eval cbv beta iota delta [tbl_size] in (tbl_size op) in change (tbl_size op) with z in Hsz.
+
+Ltac start_md lem op :=
+  let s := fresh "s" in let W := fresh "W" in let HE := fresh "HE" in let Hni := fresh "Hni" in let Hop := fresh "Hop" in
+  intros s W HE Hni Hop;
+  apply (lem s op); [ exact Hni | apply W | apply W | exact Hop | reflexivity | ];
+  let s1 := fresh "s1" in let Hs1 := fresh "Hs1" in let Hsz := fresh "Hsz" in let Hmd := fresh "Hmd" in
+  let Haddr := fresh "Haddr" in
+  intros s1 Hs1 Hsz Hmd Haddr;
+  let p := eval cbv beta iota delta [tbl_proc] in (tbl_proc op) in change (tbl_proc op) with p;
+  let z := eval cbv beta iota delta [tbl_size] in (tbl_size op) in change (tbl_size op) with z in Hsz.
+
+Lemma fetch1_eq : forall s, fetch (abs s) (mem s) 1 = operand1 s.
+Proof. reflexivity. Qed.
+
+Lemma fetch2_eq : forall s, fetch (abs s) (mem s) 2 = operand2 s.
+Proof.
+  intros s. unfold fetch, operand2, byte, ba, abs, w16, add16. arch_proj.
+  replace (((get f_PC s + 1) mod 65536 + 1) mod 65536) with ((get f_PC s + 2) mod 65536); [reflexivity |].
+  Z.div_mod_to_equations; lia.
+Qed.
+
+Lemma operand1_range : forall s, 0 <= operand1 s < 256.
+Proof. intros s. unfold operand1. apply Z.mod_pos_bound. lia. Qed.
+
+Lemma operand2_range : forall s, 0 <= operand2 s < 256.
+Proof. intros s. unfold operand2. apply Z.mod_pos_bound. lia. Qed.
+
+Ltac operands s :=
+  rewrite ?fetch1_eq, ?fetch2_eq;
+  change (mem s (get f_RK s * 65536 + add16 (add16 (get f_PC s) 1) 1) mod 256) with (operand2 s);
+  change (mem s (get f_RK s * 65536 + add16 (get f_PC s) 1) mod 256) with (operand1 s);
+  try unfold operand16;
+  let o1 := fresh "o1" in let o2 := fresh "o2" in
+  pose proof (operand1_range s); pose proof (operand2_range s);
+  generalize dependent (operand1 s); intros o1; intros; generalize dependent (operand2 s); intros o2; intros.
+
+Ltac push_fin2 s W Hop s1 Hs1 Hsz mn md :=
+  apply refines_finish; unfold advance, pushed;
+  [ unfold abs at 1; gs_fast; try rewrite Hsz; to_initial s s1 Hs1;
+    spec_side s W Hop mn md; operands s; spec_evalS; rw_hyps; lits; spec_evalS; rewrite ?ite_eqb1;
+    try reflexivity; f_equal; field_goal
+  | intro a; gs_fast; gs_normw; to_initial s s1 Hs1; spec_side s W Hop mn md; operands s; spec_evalS; rw_hyps; lits; spec_evalS;
+    mem_chain
+  | constructor; unfold flag01; gs_fast; try rewrite Hsz; to_initial s s1 Hs1; rw_hyps;
+    first [ apply W | rng8 | rng16 | (left; reflexivity) | (right; reflexivity) ] ].
+
+Lemma bank0 : forall x, 0 * 65536 + x = x.
+Proof. reflexivity. Qed.
+
+Ltac unify_mem_addrs s :=
+  repeat match goal with |- context [mem s ?A] =>
+    match goal with |- context [mem s ?B] =>
+      tryif constr_eq A B then fail else
+        (let H := fresh in assert (H : A = B) by zarithS; rewrite H; clear H)
+    end end.
+
+Ltac gen_bytes s :=
+  repeat match goal with |- context [mem s ?A mod 256] =>
+    let b := fresh "b" in
+    pose proof (Z.mod_pos_bound (mem s A) 256 eq_refl);
+    generalize dependent (mem s A mod 256); intros b; intros end.
